@@ -310,6 +310,8 @@ pub fn phase_subscription(e: &E2e, addrs: &[u8]) -> CheckResult {
 /// long enough for the timeout and at least one retry, then the path comes back.
 /// `focus` 8 asserts the C08 clauses, 4 only the C04 clause (no stream data on a link that is re-registering).
 pub fn phase_recovery(e: &E2e, addrs: &[u8], timeout_ms: u64, focus: u8) -> CheckResult {
+    let r = dispatch(&e.config, Some(&e.stats), Some(&e.cw), &format!(r#"{{"jsonrpc":"2.0","id":1,"method":"set_conn_timeout","params":{{"ms":{timeout_ms}}}}}"#));
+    vensure!(r.is_some_and(|x| x.to_json().contains("result")), "e2e-harness", "set_conn_timeout {timeout_ms} was not accepted");
     phase_uplink(e, 1000, 200, 300)?;
     let victim = *addrs.last().unwrap();
     // mute right after the victim was heard from (keepalive echoed), so that its silence starts now
@@ -475,8 +477,80 @@ pub fn phase_mode_ticks(e: &E2e, addrs: &[u8], start_classic: bool) -> CheckResu
     Ok(())
 }
 
+/// C07 on the real loop: the first `lost` REG1 frames are lost, later the receiver forgets the group.
+/// Judged from the frames the receiver sees (arrival order and times) and the group ids it handed out.
+pub fn phase_handshake(e: &E2e, addrs: &[u8], lost: u32, forget_err: bool) -> CheckResult {
+    let analyse = |what: &str| -> CheckResult {
+        let lg = e.log.lock().unwrap();
+        // REG1 frames: (ms, addr, answered?)
+        let reg1: Vec<(u64, u8, bool)> = lg.regs.iter().filter(|r| r.1 == rc::T_REG1).map(|r| (r.2, r.0, lg.groups_created.iter().any(|g| g.0 == r.2))).collect();
+        for w in reg1.windows(2) {
+            if !w[0].2 && w[1].1 != w[0].1 {
+                vensure!(
+                    w[1].0 + 300 >= w[0].0 + 4000,
+                    "e2e-reg1-on-two-links",
+                    "real event loop, {what}: REG1 on link {} only {} ms after the unanswered REG1 on link {} (still outstanding for 4 s)",
+                    w[1].1,
+                    w[1].0 - w[0].0,
+                    w[0].1
+                );
+            }
+        }
+        // registration REG2 frames carry an id the receiver handed out (start-up probes, sent before any group exists, are exempt)
+        for (r, f) in lg.regs.iter().zip(lg.reg_frames.iter()) {
+            if r.1 != rc::T_REG2 || f.len() != 258 {
+                continue;
+            }
+            let Some(first) = lg.groups_created.first() else { continue };
+            if r.2 <= first.0 {
+                continue;
+            }
+            let known = lg.groups_created.iter().any(|g| g.0 <= r.2 && g.1[..] == f[2..]);
+            vensure!(known, "e2e-reg2-wrong-id", "real event loop, {what}: link {} sent a REG2 at {} ms whose id is none of the {} ids the receiver handed out so far", r.0, r.2, lg.groups_created.iter().filter(|g| g.0 <= r.2).count());
+        }
+        // the id goes out in one round: no link sends two REG2 within 300 ms of a group's creation
+        for g in &lg.groups_created {
+            for a in addrs {
+                let k = lg.regs.iter().zip(lg.reg_frames.iter()).filter(|(r, f)| r.0 == *a && r.1 == rc::T_REG2 && r.2 > g.0 && r.2 <= g.0 + 300 && f.len() == 258 && f[2..] == g.1[..]).count();
+                vensure!(k <= 1, "e2e-reg2-broadcast-repeated", "real event loop, {what}: link {a} sent {k} REG2 frames within 300 ms of the group's creation");
+            }
+        }
+        Ok(())
+    };
+    let up = e.wait_until(Duration::from_secs(30), |lg| addrs.iter().all(|a| lg.members.contains(a)));
+    analyse("start-up")?;
+    {
+        let lg = e.log.lock().unwrap();
+        let n1 = lg.regs.iter().filter(|r| r.1 == rc::T_REG1).count();
+        vensure!(up, "e2e-handshake-stuck", "real event loop: {lost} REG1 frame(s) were lost at start-up; 30 s later not every link is registered (REG1 frames seen: {n1}, members {:?})", lg.members);
+        vensure!(n1 as u32 > lost, "e2e-harness", "registered although only {n1} REG1 frames were seen and {lost} were dropped");
+    }
+    // the receiver forgets the group
+    std::thread::sleep(Duration::from_millis(1500));
+    if forget_err {
+        // a receiver that refuses every REG2 with REG_ERR: the sender can do nothing but retry (a new group is only
+        // started on REG_NGP, as in the reference implementation), so only the invariants are judged here
+        e.policy.lock().unwrap().forget = Some(true);
+        std::thread::sleep(Duration::from_millis(12_000));
+        analyse("while the receiver refuses with REG_ERR")?;
+    }
+    let groups_before = e.log.lock().unwrap().groups_created.len();
+    e.policy.lock().unwrap().forget = Some(false);
+    let what = if forget_err { "after the receiver forgot the group (REG_ERR for 12 s, then REG_NGP)" } else { "after the receiver forgot the group (REG_NGP)" };
+    let back = e.wait_until(Duration::from_secs(45), |lg| lg.groups_created.len() > groups_before && addrs.iter().all(|a| lg.members.contains(a)));
+    analyse(what)?;
+    if std::env::var_os("VERIF_E2E_TRACE").is_some() {
+        let lg = e.log.lock().unwrap();
+        eprintln!("handshake: groups {:?}", lg.groups_created.iter().map(|g| g.0).collect::<Vec<_>>());
+        eprintln!("handshake: order tail {:?}", lg.order.iter().filter(|o| o.3 != 0).map(|o| (o.4, o.1, o.2, o.3)).collect::<Vec<_>>());
+    }
+    vensure!(back, "e2e-handshake-stuck", "real event loop, {what}: 45 s later the links are not all registered again (members {:?})", e.log.lock().unwrap().members);
+    Ok(())
+}
+
 #[derive(Clone, Copy, PartialEq, Eq, Debug)]
 pub enum Phase {
+    Handshake,
     ModeTicks,
     Recovery,
     RecoveryEligibility,
@@ -540,10 +614,18 @@ pub fn run(ctx: &Ctx, phase: Phase, scenarios: usize) {
         // one attempt of the scenario; None = could not start (inconclusive)
         let attempt = |notes: &mut Vec<String>| -> Option<CheckResult> {
             let probe = LagProbe::start();
-            let recovery_timeout = 2000 + 1000 * ((z >> 24) % 3);
-            let timeout = if matches!(phase, Phase::Recovery | Phase::RecoveryEligibility) { recovery_timeout } else { 5000 };
+            // recovery phases start with a 2 s timeout and raise it at run time (4 / 5 / 6 s): a loop that kept
+            // using the start-up value would tear the link down early
+            let recovery_timeout = 4000 + 1000 * ((z >> 24) % 3);
+            let timeout = if matches!(phase, Phase::Recovery | Phase::RecoveryEligibility) { 2000 } else { 5000 };
             let cfg = DynamicConfig::from_cli(if classic { srtla_core::SchedulingMode::Classic } else { srtla_core::SchedulingMode::Enhanced }, (z >> 17) & 1 == 1, (z >> 18) & 1 == 1, 32, 3000, timeout);
-            let Some(e) = E2e::start(&addrs, cfg, Duration::from_secs(20)) else {
+            let lost_reg1 = 1 + ((z >> 28) % 2) as u32;
+            let started = if phase == Phase::Handshake {
+                E2e::start_raw(&addrs, cfg, crate::engine::e2e::RxPolicy { ignore_reg1: lost_reg1, ..Default::default() })
+            } else {
+                E2e::start(&addrs, cfg, Duration::from_secs(20))
+            };
+            let Some(e) = started else {
                 notes.push(format!("scenario {k}: start-up did not complete within 20 s (inconclusive, skipped; scheduling lag up to {} ms)", probe.finish()));
                 return None;
             };
@@ -574,6 +656,7 @@ pub fn run(ctx: &Ctx, phase: Phase, scenarios: usize) {
                 }
                 Phase::Subscription => phase_subscription(&e, &addrs),
                 Phase::ModeTicks => phase_mode_ticks(&e, &addrs, classic),
+                Phase::Handshake => phase_handshake(&e, &addrs, lost_reg1, (z >> 30) & 1 == 1),
                 Phase::Recovery => phase_recovery(&e, &addrs, recovery_timeout, 8),
                 Phase::RecoveryEligibility => phase_recovery(&e, &addrs, recovery_timeout, 4),
             };
